@@ -96,6 +96,9 @@ class UseWalrusIf(SimpleCodemod, NameResolutionMixin):
                 continue
             if not (if_test := self._filter_if(b)):
                 continue
+            # line includes/excludes name the line of the assignment that gets folded
+            if not self.filter_by_path_includes_or_excludes(self.node_position(a)):
+                continue
 
             assign, target, value = found_assign
             match if_test:
